@@ -232,6 +232,33 @@ Example C19_grace_nonvacuous :
   In OLaunchHelper (snd (run f1 [EvLaunch LaunchOk])).
 Proof. vm_compute. repeat split; auto. Qed.
 
+(* ---- C19_early_ctrl_c: Ctrl-C before the session's goroutine has begun ---- *)
+
+(* The pinned code violates "Ctrl-C at any time": the session is visible to sendInput
+   before handleZmodemEvent has stored its writers; a lone Ctrl-C in that window (kept
+   open by a terminal that is slow to take the hide-cursor sequence) makes
+   handleZmodemError write to a nil writer and the client process dies.  Witness
+   (replayed on the real filter by the harness in a child process): *)
+Theorem C19_early_ctrl_c_pinned_refuted :
+  exists evs, evs = [EvServer hdr_download; EvInput [Consts.zmodem_ctrl_c]] /\
+              In OCrash (snd (run_pinned idle evs)).
+Proof.
+  eexists. split; [reflexivity|]. rewrite pinned_crashes. cbn [In]. auto 6.
+Qed.
+Print Assumptions C19_early_ctrl_c_pinned_refuted.
+
+(* with hooks/fix_zmodem_early_ctrl_c.diff (the model [step]) nothing ever crashes, the
+   pinned code differs from it in that window only, and the witness history ends with the
+   cancel sequence sent, the helper never started and the session cleaned up *)
+Theorem C19_early_ctrl_c :
+  (forall evs f, ~ In OCrash (snd (run f evs))) /\
+  (forall f e, (forall buf, e = EvInput buf -> crash_window f buf = false) -> step_pinned f e = step f e) /\
+  snd (run idle [EvServer hdr_download; EvInput [Consts.zmodem_ctrl_c]; EvGraceBegin; EvLaunch LaunchOk; EvCleanupFire]) =
+    [OForward; OTerm hdr_download; OHide; OStart false;
+     OCancelServer; OArm TCleanup; OMsg MStopped; OInput false; OServer Consts.zmodem_cleanup_enter].
+Proof. exact (conj (no_crash_run true) (conj pinned_agrees early_ctrl_c_fixed)). Qed.
+Print Assumptions C19_early_ctrl_c.
+
 (* ---- non-vacuity ---- *)
 Example C19_nonvacuous_session :
   (* Ctrl-C on a running download with a silent helper: stopped, helper alive, kill scheduled *)
